@@ -822,6 +822,11 @@ func ruleALIAS2(c *Ctx) []Ob {
 			for _, og := range c.deepOrigins(cc.Value) {
 				switch og.(type) {
 				case *ssa.MakeClosure, *ssa.Function:
+				case *ssa.Const:
+					// the nil function a selector hands back for "none": nobody's code
+					if !og.(*ssa.Const).IsNil() {
+						libMade = false
+					}
 				default:
 					libMade = false
 				}
